@@ -1,6 +1,7 @@
 package checks
 
 import (
+	"encoding/binary"
 	"errors"
 	"fmt"
 	"math"
@@ -405,6 +406,13 @@ func (e *simEnv) judge(res drive.Result, tag string) (flow *refmatch.Flow, js []
 		if aborts {
 			return f, js
 		}
+		if v.Proto == "sack" && e.handshakeWithoutSackPerm(js) {
+			// an injected frame happened to be a SYN-ACK of THIS connection (the kernel-chosen local port, which the harness
+			// does not know when it builds the frame, matched its random destination port) without a usable SACK-permitted
+			// option: "the target does not support SACK" is then the correct outcome
+			c.Count("handshake_port_coincidence", 1)
+			return f, js
+		}
 		c.Violate("C09", "abort/"+v.Name, fmt.Sprintf("%s: fault-free run returned an error: %v", tag, res.Err), detail())
 		return f, js
 	}
@@ -626,6 +634,57 @@ func (e *simEnv) justified(js []judged, f *refmatch.Flow, t int, a netip.Addr, d
 		}
 	}
 	return nil
+}
+
+// handshakeWithoutSackPerm: did the handle read a SYN|ACK from the target's address and port to the connection's own local
+// port (known from the peer's accepted connection) that carries no SACK-permitted option inside its data offset?
+func (e *simEnv) handshakeWithoutSackPerm(js []judged) bool {
+	if e.peer == nil || e.handle == nil {
+		return false
+	}
+	lport := e.peer.LocalPort(e.handle.Idx)
+	if lport == 0 {
+		return false
+	}
+	for i := range js {
+		b := js[i].d.Frame.Bytes
+		if len(b) < 20 || b[0]>>4 != 4 || b[9] != 6 {
+			continue
+		}
+		ihl := int(b[0]&0x0f) * 4
+		if ihl < 20 || len(b) < ihl+20 || netip.AddrFrom4([4]byte(b[12:16])) != e.spec.Target {
+			continue
+		}
+		t := b[ihl:]
+		if binary.BigEndian.Uint16(t[0:2]) != e.spec.Port || binary.BigEndian.Uint16(t[2:4]) != lport || t[13]&0x12 != 0x12 {
+			continue
+		}
+		doff := int(t[12]>>4) * 4
+		if doff < 20 || doff > len(t) {
+			continue
+		}
+		found := false
+		for o := t[20:doff]; len(o) > 0; {
+			if o[0] == 0 {
+				break
+			}
+			if o[0] == 1 {
+				o = o[1:]
+				continue
+			}
+			if len(o) < 2 || int(o[1]) < 2 || int(o[1]) > len(o) {
+				break
+			}
+			if o[0] == 4 {
+				found = true
+			}
+			o = o[o[1]:]
+		}
+		if !found {
+			return true
+		}
+	}
+	return false
 }
 
 // witnessClass names the class of the read frame the tool most likely used for a hop reporting address a:
